@@ -345,7 +345,7 @@ theorem hr1A_core {g : Cfg} {K1 : RCtx} (hK1 : K1.Aborted) (hfin : K1.final = fa
 /-- the handler has ended after its failed read: `close` -/
 theorem done_close {g : Cfg} (hK0 : g.K0.Aborted) (hrole : g.p.role = 3) {Ow : Bytes} {s0 : ExitStatus}
     {pr : Bool} (hmode : g.st = if pr then ExitStatus.abort else s0) {c : Conn} {r : AReq} {H : HState}
-    (hph : c.phase = .handler r H) (hd : HDoneA g Ow s0 pr (handlerFuel c.env r) r H c.env)
+    (hph : c.phase = .handler r H) (hd : HDoneA g Ow s0 pr ((handlerFuel c.env r + scriptOf c)) r H c.env)
     (hnw : r.writeable = false) (hb : Ben c.env.tr) (hstop : c.stop = false) (hev : Ev1 g c.env.tr)
     (hsc : c.scripts = g.more) :
     GRes3 (TA g Ow) (AfterE g (g.LfO Ow)) (FinE g (g.LfO Ow)) 3 c := by
@@ -397,7 +397,7 @@ theorem hr2_poll {g : Cfg} {K2 : RCtx} (hK : K2.Aborted) (hC : K2.C = []) (hl : 
     GRes3 (fun c => HR2 g K2 P2 s0 pr c ∨ TA g Ow c) (AfterE g (g.LfO Ow)) (FinE g (g.LfO Ow)) 3 c := by
   obtain ⟨r, sub, dO, hph, hs, hnw, hb, hstop, hev, hsc⟩ := h
   have hfuel := handlerFuel_ge c.env r
-  rcases hr2_core hK hC hl hs8 hOw s0 pr (handlerFuel c.env r) r sub c.env dO (by omega) hb hs with
+  rcases hr2_core hK hC hl hs8 hOw s0 pr ((handlerFuel c.env r + scriptOf c)) r sub c.env dO (by omega) hb hs with
     ⟨r', acc', e', dO', d1, d3, d5, d6, d8, d9, d10⟩ | hd
   · have hstep := C07.handler_step c r _ hph
     rw [d1] at hstep
@@ -494,12 +494,12 @@ theorem hr1A_poll {g : Cfg} {a : Rec} {s0 : ExitStatus} {pr : Bool} (ok : FR1OK 
     omega
   have hfu := ok.hfu
   have hfuel : 2 * ((g.K5a.C.length - (accOf sub).length) / 64) + 4 * c.env.tr.input.length + 10 ≤
-      handlerFuel c.env r := by
+      (handlerFuel c.env r + scriptOf c) := by
     unfold handlerFuel
     rw [hcapr]
     omega
   rcases hr1A_core hK (k5a_final g) ⟨rfl, rfl, rfl, rfl⟩ rfl ok.k0 ok.role (Ow := g.Ow1) rfl s0 pr
-      (handlerFuel c.env r) r sub c.env dO hfuel hb hs with
+      ((handlerFuel c.env r + scriptOf c)) r sub c.env dO hfuel hb hs with
     ⟨r', acc', e', dO', d1, d3, d5, d6, d8, d9, d10⟩ | ⟨r', acc', e', dO', d1, d3, d5, d6, d8, d9, d10⟩ | hd
   · have hstep := C07.handler_step c r _ hph
     rw [d1] at hstep
@@ -833,11 +833,11 @@ theorem hr1_poll {g : Cfg} {mid : List Rec} {a : Rec} {s0 : ExitStatus} {pr : Bo
     omega
   have hfu := ok.hfu
   have hfuel : 2 * ((g.K.C.length - (accOf sub).length) / 64) + 2 * c.env.tr.input.length + 8 ≤
-      handlerFuel c.env r := by
+      (handlerFuel c.env r + scriptOf c) := by
     unfold handlerFuel
     rw [hcapr]
     omega
-  rcases hr1_core ok (handlerFuel c.env r) r sub c.env dO hfuel hb hs with
+  rcases hr1_core ok ((handlerFuel c.env r + scriptOf c)) r sub c.env dO hfuel hb hs with
     ⟨r', acc', e', dO', d1, d3, d5, d6, d8, d9, d10⟩ | ⟨r', acc', e', dO', d1, d3, d5, d6, d8, d9, d10⟩ | hd
   · have hstep := C07.handler_step c r _ hph
     rw [d1] at hstep
